@@ -259,8 +259,12 @@ func buildExpectations(r *rand.Rand, mods []modVersion) []expect {
 		ex = append(ex, expect{url: urlFor(m.Path, escV(m.Version)+"."+[]string{"foo", "txt", "zi", "infoo", "MOD", "json", "ziphash", "info.bak"}[r.Intn(8)]), status: 404, kind: "unknown-extension"})
 		// a commit hash that identifies exactly this stored version must be answered with this version's data
 		if h := uniqueHash(m, mods); h != "" {
-			if r.Intn(2) == 0 && len(h) > 7 {
+			switch {
+			case r.Intn(3) == 0 && len(h) > 7:
 				h = h[:7]
+			case r.Intn(2) == 0:
+				// the full commit hash, of which the proxy knows the first twelve digits
+				h = (h + "0123456789abcdef0123456789abcdef01234567")[:40]
 			}
 			switch r.Intn(3) {
 			case 0:
